@@ -23,7 +23,8 @@ func init() {
 func runC01(c *Ctx) {
 	c.rule("order-config", "Config fills slot i from sources[i].Value(...) with the same range index, once, in a forward range, and never reorders the slot slice", 2)
 	c.rule("order-compose", "compose overlays its slots in a forward range (index = induction variable + 1 from -1), each iteration overlaying the element at that index onto the one base defined before the loop", 2)
-	c.rule("struct-ptr-merges", "in the leaf overlay a base pointer is replaced wholesale by (something derived from) the overlay only when the base pointer is nil, its pointee type is not a struct, or it is a text-unmarshaler struct: a non-nil pointer to a struct is merged field by field", 2)
+	c.rule("struct-ptr-merges", "in the leaf overlay a base pointer is replaced wholesale by (something derived from) the overlay only when the base pointer is nil, its pointee type is not a struct, or it is a text-unmarshaler struct; a struct base is replaced wholesale only when it is a text-unmarshaler struct: nested structs merge field by field", 4)
+	c.rule("watchargs-per-source", "every watching source gets its own WatchArgs, allocated in its iteration of Config's loop and naming that source (reports land in the slot of the layer they came from)", 1)
 	c.rule("slots-persist", "(shared with C02/C05) a source's slot value is written only by Config's initial fill and the identity-matched replacement: a layer never loses its value while later layers re-stack", 2)
 	c.rule("nil-skip", "in the leaf overlay routine no mutation (Set, recursion into merge routines) is reachable when the overlay operand is of a nil-able kind Pointerify can emit {Ptr, Map, Slice, Interface} and IsNil: 'a source that sets nothing changes nothing'", 3)
 	c.rule("unset-repr", "every field type Pointerify retains is nil-able: pointerifyField returns the original field only under kinds {Map, Slice, Interface, Ptr, Chan, Func} and otherwise a field whose type is reflect.PtrTo(...)/a concrete Map/Slice type", 4)
@@ -85,6 +86,7 @@ func runC01(c *Ctx) {
 	// ---- struct-ptr-merges ------------------------------------------------------------
 	c01StructPtrMerges(c, leaf)
 	c05Slots2(c, k, "slots-persist")
+	k.checkWatchArgsPerSource("watchargs-per-source")
 
 	// ---- unset-repr --------------------------------------------------------------------
 	c01UnsetRepr(c, pfield)
@@ -792,8 +794,19 @@ func c01StructPtrMerges(c *Ctx, leaf *ssa.Function) {
 			continue
 		}
 		g := pb.pathCond(leaf.Blocks[0], ci.Block())
-		// only the Ptr arm of the base-kind switch
+		// the Ptr arm and the Struct arm of the base-kind switch
 		ks := kindsWhere(g, baseKind)
+		if ks[kStruct] && !ks[kPtr] {
+			n++
+			fbS, fiS := map[string]bool{}, map[string]bool{}
+			atomsOf(g, fbS, fiS)
+			_, counterS := forAll(g, map[string][]int64{baseKind: {kStruct}}, func(e env, fv bool) bool {
+				return !fv || fbS["textU"] && e.B["textU"]
+			})
+			c.check(counterS == "", "struct-ptr-merges", name+"#replace-struct#"+itoa(n), ci.Pos(), "a struct base is replaced wholesale only when it is a text-unmarshaler struct",
+				"a struct-typed base field can be replaced wholesale by the overlay although it is not a text-unmarshaler struct: members the layer left unset are wiped instead of showing through (nested structs must merge field by field): "+counterS)
+			continue
+		}
 		if !ks[kPtr] {
 			continue
 		}
